@@ -3,7 +3,7 @@
    C11_foreign_goroutine_gets_own_run is C33's theorem (coq/C33: C33_owner_invariant — every frame allocation by a
    goroutine uses the run record owned by that goroutine, over all interleavings); it is not restated here. *)
 From Coq Require Import List NArith ZArith Bool.
-From Verif Require Import C31.Model C31.Proof C11.Model C11.Proof.
+From Verif Require Import C31.Model C31.Proof C11.Model C11.Proof C11.Conv.
 Import ListNotations.
 Open Scope N_scope.
 
@@ -45,4 +45,21 @@ Proof. reflexivity. Qed.
 Example fill_missing_example : fill N [1; 2; 3] [(3, 30); (1, 10)] = FillMissing N 2.
 Proof. reflexivity. Qed.
 Example fill_ambiguous_example : fill N [1] [(1, 10); (1, 11)] = FillAmbiguous N 1.
+Proof. reflexivity. Qed.
+
+(* ---------- the closure returned by converterToProxy (one execution of a conversion to a compiled interface) ----------
+   for every sequence of executions of ONE conversion site (CConv x: convert the current value of variable x) interleaved
+   with assignments to the variables (CSet): the interface value produced by an execution holds the value the variable had
+   at that moment - independent of everything that happens afterwards (later assignments to the variable: the value was
+   copied by MakeInterfaceHeader; later executions of the same site: each execution allocates its own proxy object) *)
+Theorem C11_conversion_snapshot : forall pre x post vs0,
+  nth_error (cread (pre ++ CConv x :: post) vs0) (nconv pre) = Some (nth x (fst (crun pre vs0 [])) 0).
+Proof. exact conversion_snapshot. Qed.
+Print Assumptions C11_conversion_snapshot.
+
+Theorem C11_conversion_one_object_per_execution : forall ops vs0, length (cread ops vs0) = nconv ops.
+Proof. exact conversions_distinct_cells. Qed.
+Print Assumptions C11_conversion_one_object_per_execution.
+
+Example conversion_example : cread [CConv 0; CSet 0 7; CConv 0; CSet 0 9] [1] = [1; 7].
 Proof. reflexivity. Qed.
